@@ -453,9 +453,8 @@ Proof.
   rewrite (len_concat_be4 (fun x => x)); lia].
 Qed.
 
-(** AS_PATH.  Guard: every segment type is one of 1..4 - ASPath.construct means to reject other
-    types but its test is `assert <exception object>` (always true); repaired by
-    build/proposed/c08-aspath-segment-type.diff, see [aspath_bad_segment_type]. *)
+(** AS_PATH.  ASPath.construct rejects a segment type outside 1..4 (fix: reject an undefined
+    AS_PATH segment type when constructing), so whatever it returns has valid segment types. *)
 Lemma len_concat_be k l : len (concat (map (be k) l)) = N.of_nat (length l) * N.of_nat k.
 Proof.
   induction l as [|x l IH]; [reflexivity|].
@@ -470,12 +469,21 @@ Proof.
   { rewrite len_concat_be. unfold len, asn_size. destruct asn4; reflexivity. }
   rewrite L, splitN_app. reflexivity.
 Qed.
+Lemma check_segments_types asn4 segs u :
+  check_segments asn4 segs = Ok u -> Forall (fun s => 1 <= fst s <= 4) segs.
+Proof.
+  induction segs as [|s segs IH]; intros H; [constructor|].
+  cbn [check_segments] in H. unfold seg_type_ok in H.
+  destruct ((1 <=? fst s) && (fst s <=? 4)) eqn:E; [|discriminate].
+  destruct (segment_ok asn4 s); [|discriminate].
+  constructor; [lia | exact (IH H)].
+Qed.
 Lemma construct_aspath_valid asn4 ap cr segs b :
-  Forall (fun s => 1 <= fst s <= 4) segs ->
   construct_aspath asn4 segs = Ok b -> valid_attrs (mkw asn4 ap cr) b = true.
 Proof.
-  intros G. unfold construct_aspath.
-  destruct (forallb (segment_ok asn4) segs); [|discriminate]. cbv zeta.
+  unfold construct_aspath.
+  destruct (check_segments asn4 segs) as [u| |] eqn:C; [|discriminate|discriminate].
+  pose proof (check_segments_types asn4 segs u C) as G. cbv zeta.
   assert (V : value_ok (mkw asn4 ap cr) 2 (enc_aspath asn4 segs) = true).
   { unfold value_ok. cbv iota beta. cbn [w_asn4]. unfold enc_aspath. apply walk_all_concat.
     intros e He. apply in_map_iff in He as (s & <- & Hs). rewrite Forall_forall in G.
@@ -488,6 +496,3 @@ Proof.
   - intros H; inversion H; subst b. unfold tlv1. change c_ATTR_ASPath_ID with 2.
     apply attr1_valid; [reflexivity | reflexivity | exact V].
 Qed.
-Lemma aspath_bad_segment_type : exists segs b,
-  construct_aspath false segs = Ok b /\ valid_attrs cfg0 b = false.
-Proof. exists [(5, [1])]. eexists. split; vm_compute; reflexivity. Qed.
